@@ -31,7 +31,7 @@ def run_dir(name):
     return d
 
 
-def prepare(name, bindir=None, poll_secs=1, exe="verif-agent"):
+def prepare(name, bindir=None, poll_secs=1, exe="verif-agent", config_extra=None):
     """Per-run directory with a hard link of the harness executable and its own proxy-agent.json."""
     bindir = bindir or build.bindir("agent")
     d = run_dir(name)
@@ -51,14 +51,15 @@ def prepare(name, bindir=None, poll_secs=1, exe="verif-agent"):
         "cgroupRoot": "/sys/fs/cgroup",
         "fileLogLevel": "Trace",
     }
+    cfg.update(config_extra or {})          # e.g. fileLogLevel: what the operator put into GuestProxyAgent.json
     util.write_json(os.path.join(d, "proxy-agent.json"), cfg)
     return d, dst
 
 
 def run_rig(script, name, *, timeout=300, bindir=None, strace=None, keep_output=False, env_extra=None):
     """Execute one script; returns (events, returncode, stdout+stderr tail)."""
-    d, exe = prepare(name, bindir)
     script = dict(script)
+    d, exe = prepare(name, bindir, config_extra=script.pop("agent_config", None))
     script.setdefault("hosts", HOSTS)
     script.setdefault("proxy_port", 3080)
     sp = os.path.join(d, "script.json")
